@@ -91,6 +91,42 @@ type caseSpec struct {
 	payload    string
 	nilValue   bool // unmarshal direction, pointer-typed T: the case lists a nil pointer as its value
 	nilIface   bool // interface-typed T: the case lists a nil interface value (not the first case)
+	adjust     bool // the case is listed with a wrong expectation and its (passing) Before hook puts it right
+	wrongKind  int  // how a "wrong" result differs from the right one
+	wildcard   bool // unmarshal, asymmetric TypeHelper: the listed value leaves the payload open
+}
+
+// ways a wrong result differs
+const (
+	wTilde = iota // right + "~"
+	wNewline      // right + "\n"
+	wShort        // right without its last byte
+	wSpace        // " " + right
+	wUpper        // right with ASCII letters upper-cased
+	numWrong
+)
+
+var wrongNames = [...]string{"+~", "+newline", "-last byte", "space+", "upper-cased"}
+
+func wrongOf(s string, kind int) string {
+	switch kind {
+	case wNewline:
+		return s + "\n"
+	case wShort:
+		if len(s) > 1 {
+			return s[:len(s)-1]
+		}
+		return s + "~"
+	case wSpace:
+		return " " + s
+	case wUpper:
+		u := strings.ToUpper(s)
+		if u != s {
+			return u
+		}
+		return s + "~"
+	}
+	return s + "~"
 }
 
 func (c caseSpec) sig() string {
@@ -101,6 +137,15 @@ func (c caseSpec) sig() string {
 	if c.nilIface {
 		nv = ",value=nil-interface"
 	}
+	if c.adjust {
+		nv += ",before-hook-adjusts-expectation"
+	}
+	if c.beh == bWrong && c.wrongKind != 0 {
+		nv += ",wrong=" + wrongNames[c.wrongKind]
+	}
+	if c.wildcard {
+		nv += ",wildcard-payload"
+	}
 	return fmt.Sprintf("constraint=%d,beh=%s,before=%s,after=%s,pred=%s%s", c.constraint, behNames[c.beh], hookNames[c.before], hookNames[c.after], predNames[c.pred], nv)
 }
 
@@ -109,11 +154,11 @@ func (c caseSpec) sig() string {
 func (c caseSpec) errHead(i int) string {
 	switch c.beh {
 	case bError, bErrorWithData:
-		return fmt.Sprintf("scripted failure %d", i)
+		return fmt.Sprintf("scripted failure %d (100%%)", i)
 	case bPanicString, bPanicAfterSet:
-		return fmt.Sprintf("panic: boom %d\n", i)
+		return fmt.Sprintf("panic: boom %d%% %%s /a%%2Fb\n", i)
 	case bPanicError:
-		return fmt.Sprintf("panic: boom-err %d\n", i)
+		return fmt.Sprintf("panic: boom-err %d%% %%d\n", i)
 	case bNilReceiver:
 		// the text after "panic: " differs between a nil *P (runtime error: invalid memory
 		// address ...) and a nil *V (value method ... called using nil *V pointer)
@@ -253,15 +298,15 @@ func doMarshal(caseNo int) ([]byte, error) {
 	case bRight:
 		return []byte(s.data(i)), nil
 	case bWrong:
-		return []byte(s.data(i) + "~"), nil
+		return []byte(wrongOf(s.data(i), s.wrongKind)), nil
 	case bError:
 		return nil, errors.New(s.errHead(i))
 	case bErrorWithData:
 		return []byte("leftover"), errors.New(s.errHead(i))
 	case bPanicString, bPanicAfterSet:
-		panic(fmt.Sprintf("boom %d", i))
+		panic(fmt.Sprintf("boom %d%% %%s /a%%2Fb", i))
 	case bPanicError:
-		panic(fmt.Errorf("boom-err %d", i))
+		panic(fmt.Errorf("boom-err %d%% %%d", i))
 	case bNothing:
 		return nil, nil
 	}
@@ -291,7 +336,7 @@ func doUnmarshal(data []byte, set func(caseNo int, payload string)) error {
 		set(i+1, s.payload)
 		return nil
 	case bWrong:
-		set(i+1, s.payload+"~")
+		set(i+1, wrongOf(s.payload, s.wrongKind))
 		return nil
 	case bError:
 		return errors.New(s.errHead(i))
@@ -299,12 +344,12 @@ func doUnmarshal(data []byte, set func(caseNo int, payload string)) error {
 		set(i+1, "partial")
 		return errors.New(s.errHead(i))
 	case bPanicString:
-		panic(fmt.Sprintf("boom %d", i))
+		panic(fmt.Sprintf("boom %d%% %%s /a%%2Fb", i))
 	case bPanicError:
-		panic(fmt.Errorf("boom-err %d", i))
+		panic(fmt.Errorf("boom-err %d%% %%d", i))
 	case bPanicAfterSet:
 		set(i+1, s.payload)
-		panic(fmt.Sprintf("boom %d", i))
+		panic(fmt.Sprintf("boom %d%% %%s /a%%2Fb", i))
 	case bNothing:
 		return nil
 	}
